@@ -25,6 +25,7 @@ type neoGen struct {
 	// cyclic values whose back edge is not in first position are then not sent to the recursive
 	// encoders (Runtime.Serialize, Native.Invoke arguments).
 	noCycleEnc bool
+	noDeepEq   bool // known finding "equal-deep-struct-stack-overflow" is listed and still reproduces
 	excluded   int
 	tags       map[string]bool
 	cyclicTop  bool // sticky: the program has built a cycle the node's detector does not see
@@ -467,6 +468,169 @@ func (g *neoGen) fragIndex() {
 	g.tag("index-ops")
 }
 
+// hostileRel draws from the hostile integer pool relative to a length l: 0, 1, -1, l-1, l, l+1,
+// 2^31-1, 2^31, 2^32-1, 2^32, MaxInt64 (and MaxInt64-k for small k), MinInt64 (and MinInt64+k),
+// 2^63, 2^64-1.
+func (g *neoGen) hostileRel(l int) *big.Int {
+	p2 := func(n uint) *big.Int { return new(big.Int).Lsh(big.NewInt(1), n) }
+	sub := func(x *big.Int, k int64) *big.Int { return new(big.Int).Sub(x, big.NewInt(k)) }
+	maxI, minI := sub(p2(63), 1), new(big.Int).Neg(p2(63))
+	k := int64(g.intn(0, l+1, "hk"))
+	pool := []*big.Int{big.NewInt(0), big.NewInt(1), big.NewInt(-1), big.NewInt(int64(l) - 1), big.NewInt(int64(l)), big.NewInt(int64(l) + 1),
+		sub(p2(31), 1), p2(31), sub(p2(32), 1), p2(32), maxI, sub(maxI, k), sub(maxI, 1), minI, sub(minI, -k), p2(63), sub(p2(64), 1)}
+	return pool[g.intn(0, len(pool)-1, "hrel")]
+}
+
+// idx pushes an integer operand for something of length l: in range, or from the hostile pool.
+func (g *neoGen) idx(l int, hostile bool) {
+	if hostile {
+		g.a.pushInt(g.hostileRel(l))
+		return
+	}
+	if l <= 0 {
+		g.a.pushI(0)
+		return
+	}
+	g.a.pushI(int64(g.intn(0, l-1, "vidx")))
+}
+
+// fragHostileIndex: ONE opcode that takes integer operands next to a byte string, a container or
+// the stack, on an operand of small known length, with valid partners and hostile integers
+// (including pairs whose sum wraps int64). Covers SUBSTR LEFT RIGHT CAT(size) PICKITEM SETITEM
+// REMOVE NEWARRAY NEWSTRUCT PACK UNPACK SHL SHR ROLL PICK XDROP XSWAP XTUCK.
+func (g *neoGen) fragHostileIndex() {
+	l := g.intn(1, 6, "hl")
+	hostile := !g.chance(20, "allvalid") // 20 %: every operand valid (the op must then succeed)
+	str := func() { g.a.pushBytes([]byte("abcdef")[:l]) }
+	container := func() int {
+		switch k := g.intn(0, 2, "hcont"); k {
+		case 0:
+			g.a.pushI(int64(l)).op(vm.NEWARRAY)
+		case 1:
+			g.a.pushI(int64(l)).op(vm.NEWSTRUCT)
+		default:
+			g.a.op(vm.NEWMAP)
+			for i := 0; i < l; i++ {
+				g.a.op(vm.DUP).pushI(int64(i)).pushI(7).op(vm.SETITEM)
+			}
+		}
+		return l
+	}
+	items := func() {
+		for i := 0; i < l; i++ {
+			g.a.pushI(int64(i + 2))
+		}
+	}
+	opName := pick(g.t, []string{"SUBSTR", "SUBSTR", "SUBSTR", "LEFT", "RIGHT", "CAT", "PICKITEM", "PICKITEM-bytes", "SETITEM", "REMOVE", "NEWARRAY", "NEWSTRUCT",
+		"PACK", "UNPACK", "SHL", "SHR", "ROLL", "PICK", "XDROP", "XSWAP", "XTUCK"}, "hop")
+	switch opName {
+	case "SUBSTR":
+		str()
+		mode := 0
+		if hostile {
+			mode = g.intn(1, 4, "submode")
+		}
+		switch mode {
+		case 0: // valid
+			st := g.intn(0, l, "st")
+			g.a.pushI(int64(st)).pushI(int64(g.intn(0, l-st, "ct")))
+		case 1:
+			g.a.pushI(int64(g.intn(0, l, "st")))
+			g.idx(l, true)
+		case 2:
+			g.idx(l, true)
+			g.a.pushI(int64(g.intn(0, l, "ct")))
+		case 3: // start + count wraps (or just fails to wrap) int64
+			st := g.intn(1, l, "st")
+			k := g.intn(0, st, "wrapk")
+			g.a.pushI(int64(st)).pushI(int64(9223372036854775807) - int64(k))
+			g.tag("index-hostile:wrap-pair")
+		default:
+			g.idx(l, true)
+			g.idx(l, true)
+		}
+		g.a.op(vm.SUBSTR)
+	case "LEFT", "RIGHT":
+		str()
+		if hostile {
+			g.idx(l, true)
+		} else {
+			g.a.pushI(int64(g.intn(0, l, "ct")))
+		}
+		g.a.op(map[string]vm.OpCode{"LEFT": vm.LEFT, "RIGHT": vm.RIGHT}[opName])
+	case "CAT": // result size around the 1 MiB item limit
+		g.a.pushBytes([]byte{0x61})
+		d := 3
+		if hostile {
+			d = pick(g.t, []int{19, 20, 21}, "catd")
+		}
+		for i := 0; i < d; i++ {
+			g.a.op(vm.DUP, vm.CAT)
+		}
+		str()
+		g.a.op(vm.CAT)
+	case "PICKITEM":
+		container()
+		g.idx(l, hostile)
+		g.a.op(vm.PICKITEM)
+	case "PICKITEM-bytes":
+		str()
+		g.idx(l, hostile)
+		g.a.op(vm.PICKITEM)
+	case "SETITEM":
+		container()
+		g.a.op(vm.DUP)
+		g.idx(l, hostile)
+		g.a.pushI(5).op(vm.SETITEM)
+	case "REMOVE":
+		container()
+		g.a.op(vm.DUP)
+		g.idx(l, hostile)
+		g.a.op(vm.REMOVE)
+	case "NEWARRAY", "NEWSTRUCT":
+		if hostile {
+			g.a.pushInt(g.hostileRel(1024))
+		} else {
+			g.a.pushI(int64(l))
+		}
+		g.a.op(map[string]vm.OpCode{"NEWARRAY": vm.NEWARRAY, "NEWSTRUCT": vm.NEWSTRUCT}[opName])
+	case "PACK":
+		items()
+		if hostile {
+			g.a.pushInt(g.hostileRel(l))
+		} else {
+			g.a.pushI(int64(l))
+		}
+		g.a.op(vm.PACK)
+	case "UNPACK": // then re-PACK with a hostile count on top of the unpacked items
+		container()
+		g.a.op(vm.UNPACK)
+		if hostile {
+			g.a.op(vm.DROP).pushInt(g.hostileRel(l))
+		}
+		g.a.op(vm.PACK)
+	case "SHL", "SHR":
+		g.a.pushInt(pick(g.t, []*big.Int{big.NewInt(1), big.NewInt(-1), big.NewInt(255), new(big.Int).Lsh(big.NewInt(1), 254)}, "shx"))
+		if hostile {
+			g.a.pushInt(g.hostileRel(256))
+		} else {
+			g.a.pushI(int64(g.intn(0, 200, "shn")))
+		}
+		g.a.op(map[string]vm.OpCode{"SHL": vm.SHL, "SHR": vm.SHR}[opName])
+	default: // stack depth operands
+		items()
+		g.idx(l, hostile)
+		g.a.op(map[string]vm.OpCode{"ROLL": vm.ROLL, "PICK": vm.PICK, "XDROP": vm.XDROP, "XSWAP": vm.XSWAP, "XTUCK": vm.XTUCK}[opName])
+	}
+	g.tag("index-hostile")
+	g.tag("index-hostile:" + opName)
+	if hostile {
+		g.tag("index-hostile:hostile-operand")
+	} else {
+		g.tag("index-hostile:valid-operands")
+	}
+}
+
 // syscallArgs pushes plausibly typed arguments for a service (top of stack is popped first).
 func (g *neoGen) syscallArgs(name string) {
 	switch name {
@@ -681,7 +845,11 @@ func (g *neoGen) fragDeepEqual() {
 	sizes := []int{10, 500, 1024, 3000}
 	n := int64(pick(g.t, sizes, "eqn"))
 	if g.big && g.chance(6, "eqn-big") {
-		n = 30000
+		if g.noDeepEq {
+			g.excluded++ // known finding equal-deep-struct-stack-overflow: this depth already overflows a 64 MiB stack
+		} else {
+			n = 30000
+		}
 	}
 	build := func() {
 		g.a.pushI(1)
@@ -718,11 +886,17 @@ func (g *neoGen) fragLoop() {
 }
 
 // genProgram draws one program.
-func genProgram(t *rapid.T, methods map[string][]string, noCycleEnc bool) (code []byte, tags []string, excluded int) {
-	g := &neoGen{t: t, a: &asm{}, methods: methods, noCycleEnc: noCycleEnc, tags: map[string]bool{}, big: harn.Thorough()}
+func genProgram(t *rapid.T, methods map[string][]string, noCycleEnc, noDeepEq bool) (code []byte, tags []string, excluded int) {
+	g := &neoGen{t: t, a: &asm{}, methods: methods, noCycleEnc: noCycleEnc, noDeepEq: noDeepEq, tags: map[string]bool{}, big: harn.Thorough()}
 	if rng(t, 0, 19, "rawprog") == 0 {
 		g.tag("raw")
 		return rapid.SliceOfN(rapid.Byte(), 0, 120).Draw(t, "rawcode"), g.tagList(), 0
+	}
+	if g.chance(15, "hostile-index-program") {
+		// a program that is nothing but such an opcode: executed by construction
+		g.fragHostileIndex()
+		g.tag("index-hostile-only")
+		return g.a.b, g.tagList(), 0
 	}
 	// operands for whatever follows
 	for i := 0; i < g.intn(0, 3, "prefill"); i++ {
@@ -730,9 +904,11 @@ func genProgram(t *rapid.T, methods map[string][]string, noCycleEnc bool) (code 
 	}
 	nf := g.intn(1, 5, "nfrag")
 	for i := 0; i < nf; i++ {
-		switch g.intn(0, 17, "frag") {
-		case 16, 17:
+		switch g.intn(0, 18, "frag") {
+		case 16:
 			g.fragIndex()
+		case 17, 18:
+			g.fragHostileIndex()
 		case 0, 1, 2, 3:
 			g.fragSyscall()
 		case 4, 5:
